@@ -1103,6 +1103,11 @@ def run(tier, seed, replay=None):
             if 'dict_arrays' not in r:
                 continue
             cs = dict(case, stage=r['stage'])
+            if r['stage'] == 'edited' and any(op[0] in ('rm', 'ins') for op in case.get('ops', [])):
+                # edits of the surface list lead to lens states the model's record does not describe (no stop
+                # surface, neighbours with media that do not chain): the predicates on the real code stay hard
+                ctx.count('reload edited: outside the model (surface list edited)')
+                continue
             try:
                 ln = serial_line(r['dict_arrays'])
             except Exception as e:  # noqa
